@@ -4,11 +4,12 @@ from __future__ import annotations
 import ast
 from typing import Dict, List, Optional, Set, Tuple
 
-from ..cfg import CFG, EXIT
+from ..cfg import CFG, EXIT, symbolic_block_paths
 from ..exprnorm import Poly, Rat, norm_test, normalize
 from ..report import Run
 from ..src import (AnalysisError, FuncInfo, Program, attr_chain, call_name, stmt_key,
                    walk_no_nested)
+from . import common
 
 EXPLANATION = (
     "The integer encodings of EncodeState.emplace_atomic_value / DecodeState.extract_atomic_value "
@@ -438,9 +439,17 @@ def _siblings(prog: Program, run: Run) -> None:
                       "the used-bit mask is not byte-reversed together with the data",
                       f"{e.module.rel}:{xe.lineno}")
     cfg = CFG(e.node)
+    # the mask variable is what is handed to emplace_bytes as obj_used_mask
+    mask_var = "used_mask_raw"
+    for x in walk_no_nested(e.node):
+        if isinstance(x, ast.Call) and call_name(x) == "emplace_bytes":
+            for k in x.keywords:
+                if k.arg == "obj_used_mask" and isinstance(k.value, ast.Name):
+                    mask_var = k.value.id
     shifts = [x for x in walk_no_nested(e.node) if isinstance(x, ast.If) and
               "cursor_bit_position" in ast.unparse(x.test) and any(
-                  "used_mask_raw" in ast.unparse(s) for s in x.body)]
+                  isinstance(y, ast.Name) and y.id == mask_var and isinstance(y.ctx, ast.Store)
+                  for s_ in x.body for y in ast.walk(s_))]
     if not shifts:
         run.violation(R, e.qual, "mask-not-shifted",
                       "the used-bit mask is not shifted to the bit position", e.loc)
@@ -456,11 +465,28 @@ def _siblings(prog: Program, run: Run) -> None:
                           "position the mask no longer covers the bits of the value, neighbouring "
                           "parameters in the same bytes are overwritten",
                           f"{e.module.rel}:{sh.lineno}", stmt_key(sh))
-        s = ast.unparse(sh)
         w1 = normalize(ast.parse("(self.cursor_bit_position + bit_length + 7) // 8",
                                  mode="eval").body)
-        tb = [x for x in ast.walk(sh) if isinstance(x, ast.Call) and call_name(x) == "to_bytes"]
-        if tb and normalize(tb[0].args[0]).same(w1) and "tmp <<= self.cursor_bit_position" in s:
+        # symbolically: mask' = (int.from_bytes(mask, "big") << bit position).to_bytes(w1, "big")
+        width_ok = False
+        try:
+            sp = symbolic_block_paths(sh.body)
+        except AnalysisError:
+            sp = []
+        for p_ in sp:
+            v = p_.env.get(mask_var)
+            if isinstance(v, ast.Call) and call_name(v) == "to_bytes" and v.args and isinstance(
+                    v.func, ast.Attribute) and normalize(v.args[0]).same(w1):
+                inner_ = v.func.value
+                if isinstance(inner_, ast.BinOp) and isinstance(inner_.op, ast.LShift) and \
+                        ast.unparse(inner_.right) == "self.cursor_bit_position" and isinstance(
+                            inner_.left, ast.Call) and call_name(inner_.left) == "from_bytes" and \
+                        inner_.left.args and ast.unparse(inner_.left.args[0]) == mask_var:
+                    width_ok = True
+                    continue
+            width_ok = False
+            break
+        if sp and width_ok:
             run.ok(R, e.qual, "shifted mask is (bit position + bit_length + 7)//8 bytes wide",
                    f"{e.module.rel}:{sh.lineno}")
         else:
@@ -742,10 +768,24 @@ def _single_writer(prog: Program, run: Run) -> None:
     else:
         run.violation(R, "EncodeState.emplace_bytes", "overlap-warning-condition",
                       f"the overlap warning is issued under {tests}, expected {want}", f.loc)
-    pad = [x for x in walk_no_nested(f.node) if isinstance(x, ast.Assign) and ast.unparse(
-        x.targets[0]) == "pad"]
-    if pad and "b'\\x00' *" in ast.unparse(pad[0].value) and "self.coded_message += pad" in s and \
-            "self.used_mask += pad" in s:
+    # growth: both buffers are extended by the same run of zero bytes
+    grown = {}
+    for x in walk_no_nested(f.node):
+        if isinstance(x, ast.AugAssign) and isinstance(x.op, ast.Add) and ast.unparse(
+                x.target) in ("self.coded_message", "self.used_mask"):
+            v = common.resolve_locals(f.node, x.value)
+            zero = isinstance(v, ast.BinOp) and isinstance(v.op, ast.Mult) and any(
+                isinstance(o, ast.Constant) and o.value == b"\x00" for o in (v.left, v.right))
+            grown[ast.unparse(x.target)] = ast.unparse(v) if zero else None
+        if isinstance(x, ast.Call) and call_name(x) == "extend" and isinstance(
+                x.func, ast.Attribute) and ast.unparse(x.func.value) in (
+                    "self.coded_message", "self.used_mask") and x.args:
+            v = common.resolve_locals(f.node, x.args[0])
+            zero = isinstance(v, ast.BinOp) and isinstance(v.op, ast.Mult) and any(
+                isinstance(o, ast.Constant) and o.value == b"\x00" for o in (v.left, v.right))
+            grown[ast.unparse(x.func.value)] = ast.unparse(v) if zero else None
+    if set(grown) == {"self.coded_message", "self.used_mask"} and None not in grown.values() and \
+            len(set(grown.values())) == 1:
         run.ok(R, "EncodeState.emplace_bytes", "the PDU grows by zero bytes that are marked "
                "unused", f.loc)
     else:
